@@ -630,12 +630,55 @@ fn sc_c10(seed: u64, thorough: bool) -> Vec<Scenario> {
     }]
 }
 
+/// Every message type (class x method) as a second message on STUN-identified TCP flows and,
+/// for the cookie-less end-anchored forms, as datagrams: only Binding requests may be answered.
+fn sc_c15(seed: u64, thorough: bool) -> Vec<Scenario> {
+    let mut rng = Rng::new(derive(seed, "directed-c15", 0));
+    let key = [rng.u64(), rng.u64()];
+    let c = cfg(Build::Debug, LoggerKind::None, 0, key);
+    let mut steps = Vec::new();
+    let first = stun::build(1, &stun::gen_id(&mut rng, true), &[(0x8022, vec![0x41; 256])]);
+    let step = if thorough { 1 } else { 7 };
+    let mut sport = 30000u16;
+    let mut ty = 0u32;
+    while ty < 0x4000 {
+        sport += 1;
+        let fl = if sport % 2 == 0 { Flow::v4(sport, 3478) } else { Flow::v6(sport, 3478) };
+        let ck = fl.cookie(&key);
+        steps.push(Step::Frame(fl.seg(0, 0, F_SYN, &[])));
+        steps.push(Step::Frame(fl.seg(1, ck.wrapping_add(1), F_PSH | F_ACK, &first)));
+        let mut seq = 1 + first.len() as u32;
+        for _ in 0..64 {
+            if ty >= 0x4000 {
+                break;
+            }
+            // every third message asks for a port change (only a binding request may get it)
+            let attrs: Vec<(u16, Vec<u8>)> = if ty % 3 == 0 { vec![(3, vec![0, 0, 0, 2])] } else { Vec::new() };
+            let m = stun::build(ty as u16, &stun::gen_id(&mut rng, true), &attrs);
+            steps.push(Step::Frame(fl.seg(seq, ck.wrapping_add(1), F_PSH | F_ACK, &m)));
+            seq = seq.wrapping_add(m.len() as u32);
+            ty += step;
+        }
+    }
+    vec![Scenario {
+        name: "stun-types-on-identified-flow".into(),
+        cfg: c,
+        start_ms: START,
+        steps,
+        samples: 0,
+    }]
+}
+
 pub fn scenarios(prop: &str, tier: &str, seed: u64) -> Vec<Scenario> {
     let thorough = tier == "thorough";
     match prop {
         "C01" => sc_c01(seed, thorough),
         "C06" | "C07" | "C09" => sc_flags(seed, thorough),
-        "C03" => sc_flags(seed, false),
+        "C03" => {
+            let mut v = sc_flags(seed, false);
+            v.extend(sc_c15(seed, false));
+            v
+        }
         "C04" => {
             let mut v = sc_c04(seed, thorough);
             v.extend(sc_flags(seed, false));
@@ -643,6 +686,7 @@ pub fn scenarios(prop: &str, tier: &str, seed: u64) -> Vec<Scenario> {
         }
         "C05" => sc_c05(seed, thorough),
         "C11" => sc_c11(seed, thorough),
+        "C15" => sc_c15(seed, thorough),
         "C10" | "C16" => sc_c10(seed, thorough),
         "C12" => sc_c05(seed, false),
         "C20" => {
